@@ -47,6 +47,17 @@ pinned code propagates it, so: one protocol's accessory forged => pyatv.connect(
 (AuthenticationError for MRP/Companion; for the AirPlay tunnel the ProtocolError its wrapper always
 raises) and that protocol's connection has no keys; all honest => connect() returns with working keys.
 
+Every caller of pair-verify in the tree is driven (grep verify_credentials()/pair_verify():
+MrpProtocol._enable_encryption, CompanionProtocol._setup_encryption, airplay verify_connection — used
+by AP2Session.connect and RAOP AirPlayV2 — and AirPlayV1.setup()/AirPlayV1.play_url(), which run HAP
+pair-verify WITHOUT deriving keys: there `verify_credentials()` returning is the whole verdict, the
+oracle demands "raises and the receiver sees no further request", the symbolic run compares with the
+model's `verifyCredentials`).  The harness hands the client a FRESH session key for every
+SRPAuthHandler.initialize(); a reconnect campaign (run_reconnect) connects, disconnects and connects
+again on ONE CompanionAPI / ONE AP2Session / the same configuration through pyatv.connect(), answering
+the second session with the first one's bytes: a replay is rejected by construction ("replay of a reply
+from another session"), whatever the reference verifier would say about a client that reuses its key.
+
 DECISION on AirPlay's exception class (documented in meta/C06.json too): the property says a
 rejected reply "makes connecting fail with an authentication error".  `verify_connection`
 has no error mapping: AuthenticationError is raised for a wrong identifier / signature, but
@@ -63,6 +74,7 @@ keys installed" and records the exception classes seen in the evidence (distribu
 """
 import asyncio
 import binascii
+import hashlib
 import json
 
 RULE = ("symbolic run: structured replies (each TLV field of M2 present/absent/duplicated/altered, inner and outer "
@@ -78,6 +90,8 @@ RULE = ("symbolic run: structured replies (each TLV field of M2 present/absent/d
         "endpoint or frame is answered) so that any fallback after a rejected verify is reachable; "
         "user-level run: real pyatv.connect() on multi-service configurations (MRP+Companion, AirPlay+Companion, "
         "AirPlay tunnel+MRP ...), fake transports for every protocol, one protocol's accessory forged, others honest; "
+        "verify-only call sites AirPlayV1.setup/play_url (no keys derived) in both runs; reconnect run: two sessions "
+        "on one CompanionAPI / AP2Session / configuration, second answered by replaying the first or forged; "
         "distinct = (mode, transport or configuration+forged protocol, variant descriptor, session history)")
 ASSUMPTIONS = [
     "HAP credentials are present (service.credentials set): without credentials no pair-verify runs and no keys exist",
@@ -325,7 +339,7 @@ class World:
         return w
 
 
-def build_reply(w, v, client_pub):
+def build_reply(w, v, client_pub, client_priv=None):
     """The accessory's (possibly forged) answer to M1.  -> (pdkind, pd bytes)
 
     `v` (variant descriptor, all keys optional, absent = the honest accessory A):
@@ -345,7 +359,7 @@ def build_reply(w, v, client_pub):
     cr = w.crypto
     if v.get("replay_prev") and getattr(w, "prev_pd", None) is not None:
         return "bytes", w.prev_pd  # the bytes the accessory sent in the previous session of this process
-    acc_priv, cl_priv = w.acc_x, w.client_x
+    acc_priv, cl_priv = w.acc_x, (client_priv or w.client_x)
     cl_pub = client_pub
     if v.get("replay"):
         acc_priv, cl_priv = w.acc_x2, w.other_client_x
@@ -493,11 +507,12 @@ def pd_word(kind, pd):
     return {"bytes": "b:" + (hx(pd) if pd else "-"), "absent": "absent", "notbytes": "notbytes"}[kind]
 
 
-def reference_accepts(w, pdkind, pd):
+def reference_accepts(w, pdkind, pd, client_priv=None):
     """The property's acceptance condition, evaluated with `cryptography` only (no pyatv):
     the reply carries the stored identifier and a signature by the stored long-term key over
     session_pub || identifier || client session pub, inside data sealed under the session key."""
     real = RealCrypto()
+    client_x = client_priv or w.client_x
     if pdkind != "bytes":
         return False
     outer = tlv_parse(pd)
@@ -507,7 +522,7 @@ def reference_accepts(w, pdkind, pd):
     if len(pub) != 32:
         return False
     try:
-        shared = real.exchange(w.client_x, pub)
+        shared = real.exchange(client_x, pub)
     except ValueError:
         return False
     plain = real.open(real.hkdf(PV_SALT, PV_INFO, shared), MSG02, enc)
@@ -518,7 +533,7 @@ def reference_accepts(w, pdkind, pd):
         return False
     if inner[TAG_ID] != w.a_id:
         return False
-    return real.ed_verify(w.a_ltpk, pub + inner[TAG_ID] + real.x_pub(w.client_x), inner[TAG_SIG])
+    return real.ed_verify(w.a_ltpk, pub + inner[TAG_ID] + real.x_pub(client_x), inner[TAG_SIG])
 
 
 # ----------------------------------------------------------------------------------------
@@ -854,7 +869,9 @@ class Case:
 
     def m2(self, client_pub):
         self.obs.client_pub = bytes(client_pub)
-        kind, pd = build_reply(self.w, self.v, bytes(client_pub))
+        bench = getattr(self, "bench", None)
+        self.client_priv = (bench.priv_by_pub.get(bytes(client_pub)) if bench else None) or self.w.client_x
+        kind, pd = build_reply(self.w, self.v, bytes(client_pub), self.client_priv)
         self.sent_pd = (kind, pd)
         return kind, pd
 
@@ -1108,14 +1125,21 @@ def airplay_accessory(case, loop, holder):
     """The accessory end of an AirPlay control connection (HTTP)."""
     state = {"buf": b""}
 
-    def respond(code, body, ctype="application/octet-stream"):
-        head = f"HTTP/1.1 {code} {'OK' if code == 200 else 'Error'}\r\nContent-Length: {len(body)}\r\nContent-Type: {ctype}\r\n\r\n"
+    def respond(code, body, ctype="application/octet-stream", proto="HTTP/1.1", extra=""):
+        head = f"{proto} {code} {'OK' if code == 200 else 'Error'}\r\nContent-Length: {len(body)}\r\nContent-Type: {ctype}\r\n{extra}\r\n"
         loop.call_soon(holder["conn"].data_received, head.encode() + body)
 
-    def on_request(path, body):
+    def on_request(path, body, method="POST", proto="HTTP/1.1", cseq=None):
         t = tlv_parse(body) or {}
         seq = t.get(TAG_SEQ, b"\x00")
-        if path == "/pair-setup":
+        if method != "POST" or proto != "HTTP/1.1" or path == "/play":
+            # what a client does once it trusts the receiver (ANNOUNCE, SETUP, POST /play, ...)
+            case.other("TRUSTED:%s %s" % (method, path if path.startswith("/") else "<uri>"))
+            extra = "Transport: RTP/AVP/UDP;unicast;mode=record;control_port=1;timing_port=2;server_port=3\r\nSession: 1\r\n"
+            if cseq is not None:
+                extra += "CSeq: %s\r\n" % cseq
+            respond(200, b"", proto=proto, extra=extra)
+        elif path == "/pair-setup":
             case.other("POST /pair-setup M%d" % (seq[0] if seq else 0))
             respond(200, case.setup.handle(t))
         elif path != "/pair-verify" or seq not in (b"\x01", b"\x03") or (seq == b"\x01" and TAG_PUB not in t):
@@ -1157,7 +1181,12 @@ def airplay_accessory(case, loop, holder):
             state["buf"] = rest[n:]
             try:
                 first = head.split(b"\r\n")[0].decode("utf-8", "replace").split(" ")
-                on_request(first[1] if len(first) > 1 else "?", rest[:n])
+                cseq = None
+                for line in head.split(b"\r\n")[1:]:
+                    if line.lower().startswith(b"cseq:"):
+                        cseq = line.split(b":", 1)[1].strip().decode()
+                on_request(first[1] if len(first) > 1 else "?", rest[:n], first[0],
+                           first[2] if len(first) > 2 else "HTTP/1.1", cseq)
             except Exception as ex:
                 case.log.add("accessory-error:" + type(ex).__name__)
 
@@ -1194,6 +1223,35 @@ async def attempt_airplay(case, loop):
     conn.close()
 
 
+async def attempt_airplayv1(case, loop):
+    """pair-verify as run by AirPlayV1.setup() / AirPlayV1.play_url(): verify_credentials() is the
+    whole verdict there, no keys are ever derived (AirPlay 1 has none)."""
+    from pyatv.auth.hap_pairing import parse_credentials
+    from pyatv.protocols.raop.protocols import StreamContext
+    from pyatv.protocols.raop.protocols.airplayv1 import AirPlayV1
+    from pyatv.support import http
+    from pyatv.support.rtsp import RtspSession
+
+    holder = {}
+    conn = holder["conn"] = http.HttpConnection()
+    conn.connection_made(FakeTransport(airplay_accessory(case, loop, holder)))
+    context = StreamContext()
+    context.credentials = parse_credentials(case.w.credentials_string())
+    if case.mode == "sym":
+        SpyBytes.log = case.log
+        context.credentials.atv_id = SpyBytes(context.credentials.atv_id)
+    proto = AirPlayV1(context, RtspSession(conn))
+    try:
+        if case.transport == "airplayv1-setup":
+            await proto.setup(49200, 49201)
+        else:
+            await proto.play_url(49200, "http://verif.invalid/video.mp4")
+    except Exception as ex:
+        case.obs.exc = type(ex).__name__
+        case.obs.exc_chain = _exc_chain(ex)
+    conn.close()
+
+
 # ----------------------------------------------------------------------------------------
 # the user-level path: real pyatv.connect() on a multi-service configuration
 # ----------------------------------------------------------------------------------------
@@ -1204,6 +1262,8 @@ USER_CONFIGS = {
     "airplay(plain)+companion": [("airplay", False), ("companion", True)],
     "airplay(tunnel)+companion": [("airplay", True), ("companion", True)],
     "airplay(tunnel)+mrp(nocreds)": [("airplay", True), ("mrp", False)],
+    "companion": [("companion", True)],
+    "airplay(tunnel)": [("airplay", True)],
 }
 # (config, protocol whose accessory presents the forged reply)
 USER_SLOTS = [
@@ -1224,7 +1284,6 @@ class UserCase:
             c = Case(w, variant if proto == forged else {}, "real", proto)
             c.has_credentials = creds
             self.cases[proto] = c
-        self.urandom_queue = [w.client_ed_seed, w.client_x]
         self.log = Log()
         self.conns = {}
         self.exc = None
@@ -1285,7 +1344,9 @@ async def attempt_user(u, loop):
             pass
 
 
-ATTEMPT = {"mrp": attempt_mrp, "companion": attempt_companion, "airplay": attempt_airplay}
+ATTEMPT = {"mrp": attempt_mrp, "companion": attempt_companion, "airplay": attempt_airplay,
+           "airplayv1-setup": attempt_airplayv1, "airplayv1-play": attempt_airplayv1}
+VERIFY_ONLY = ("airplayv1-setup", "airplayv1-play")  # call sites that verify without deriving keys
 
 
 class Bench:
@@ -1296,6 +1357,8 @@ class Bench:
         self.patches = Patches()
         self.current = None
         self.loop = None
+        self.rand_k = {}
+        self.priv_by_pub = {}
 
     def __enter__(self):
         import os as real_os
@@ -1314,13 +1377,27 @@ class Bench:
         p = self.patches
 
         def urandom(n):
-            # SRPAuthHandler.initialize asks for the Ed25519 seed, then the X25519 key; AirPlay
-            # calls initialize twice (pair_verify and verify_credentials): same answers again
-            q = bench.current.urandom_queue
+            # SRPAuthHandler.initialize asks for the Ed25519 seed, then the X25519 key.  Every call
+            # gets a FRESH deterministic value (k-th request for this world in this process), so a
+            # client that ought to make new session keys per connection really gets new ones and a
+            # replayed reply can only pass if the code under test reuses an old key.
             if n != 32:
                 return real_os.urandom(n)
-            q.append(q.pop(0))
-            return q[-1]
+            w = bench.current.w
+            k = bench.rand_k.get(id(w), 0)
+            bench.rand_k[id(w)] = k + 1
+            if k == 0:
+                val = w.client_ed_seed
+            elif k == 1:
+                val = w.client_x
+            else:
+                val = hashlib.sha256(b"c06-urandom" + w.client_x + k.to_bytes(4, "big")).digest()
+            for cr in (RealCrypto, SymCrypto):
+                try:
+                    bench.priv_by_pub[cr().x_pub(val)] = val
+                except Exception:
+                    pass
+            return val
 
         p.set(hap_srp, "os", Shim(real_os, urandom=urandom))
 
@@ -1400,7 +1477,7 @@ class Bench:
 
     def attempt(self, w, variant, transport):
         case = Case(w, variant, self.mode, transport)
-        case.urandom_queue = [w.client_ed_seed, w.client_x]
+        case.bench = self
         self.current = case
         loop = self.loop
 
@@ -1423,8 +1500,99 @@ class Bench:
         case.obs.other_traffic = list(case.other_traffic)
         return case
 
+    def attempt_reconnect(self, w, kind, v2):
+        """Two sessions on ONE user-level object (or two pyatv.connect() of one configuration): the first
+        with the honest accessory, the second answered per `v2` (replay_prev = the first session's bytes).
+        -> (first UserCase, second UserCase)"""
+        from types import SimpleNamespace
+
+        loop = self.loop
+        bench = self
+        config, forged = {"companion-api": ("companion", "companion"), "ap2session": ("airplay(tunnel)", "airplay"),
+                          "pyatv.connect:mrp": ("mrp+companion", "mrp"),
+                          "pyatv.connect:companion": ("mrp+companion", "companion")}[kind]
+        us = []
+
+        def new_session(variant):
+            u = UserCase(w, config, forged, variant)
+            for c in u.cases.values():
+                c.bench = bench
+            bench.current = u
+            us.append(u)
+            return u
+
+        async def guarded(u, coro):
+            try:
+                await coro
+                u.connected = True
+            except Exception as ex:
+                u.exc = type(ex).__name__
+                u.exc_chain = _exc_chain(ex)
+            u.keys_snapshot = {p: u.keys_after(p) for p in u.cases}
+
+        async def go():
+            if kind == "companion-api":
+                from pyatv.protocols.companion.api import CompanionAPI
+                from pyatv.settings import Settings
+
+                core = SimpleNamespace(loop=loop, config=SimpleNamespace(address="127.0.0.1"), device_listener=None,
+                                       settings=Settings(),
+                                       service=SimpleNamespace(port=49153, credentials=w.credentials_string(), properties={}))
+                api = CompanionAPI(core)
+                u1 = new_session({})
+                await guarded(u1, api.connect())
+                try:
+                    await api.disconnect()
+                except Exception:
+                    pass
+                w.prev_pd = (u1.cases[forged].sent_pd or (None, None))[1]
+                u2 = new_session(v2)
+                await guarded(u2, api.connect())
+                try:
+                    await api.disconnect()
+                except Exception:
+                    pass
+            elif kind == "ap2session":
+                from pyatv.auth.hap_pairing import parse_credentials
+                from pyatv.protocols.airplay.ap2_session import AP2Session
+                from pyatv.settings import InfoSettings
+
+                sess = AP2Session("127.0.0.1", 7000, parse_credentials(w.credentials_string()), InfoSettings())
+                u1 = new_session({})
+                await guarded(u1, sess.connect())
+                w.prev_pd = (u1.cases[forged].sent_pd or (None, None))[1]
+                u2 = new_session(v2)
+                await guarded(u2, sess.connect())
+            else:
+                u1 = new_session({})
+                u1.forged = None
+                await attempt_user(u1, loop)
+                w.prev_pd = (u1.cases[forged].sent_pd or (None, None))[1]
+                u2 = new_session(v2)
+                await attempt_user(u2, loop)
+
+        try:
+            loop.run_until_complete(go())
+        except Exception as ex:
+            for u in us:
+                if not hasattr(u, "keys_snapshot"):
+                    u.exc = u.exc or ("HARNESS:" + type(ex).__name__)
+                    u.keys_snapshot = {p: u.keys_after(p) for p in u.cases}
+        finally:
+            pending = [t for t in asyncio.all_tasks(loop) if not t.done()]
+            for t in pending:
+                t.cancel()
+            if pending:
+                try:
+                    loop.run_until_complete(asyncio.gather(*pending, return_exceptions=True))
+                except Exception:
+                    pass
+        return us[0], us[-1]
+
     def attempt_user(self, w, config, forged, variant):
         u = UserCase(w, config, forged, variant)
+        for c in u.cases.values():
+            c.bench = self
         self.current = u
         loop = self.loop
         try:
@@ -1642,10 +1810,14 @@ def lean_line(w, transport, case):
     kind, pd = case.sent_pd if case.sent_pd else ("absent", b"")
     pdw = pd_word(kind, pd)
     cr = w.crypto
+    cx = getattr(case, "client_priv", None) or w.client_x
     m4 = build_m4(case.m4)
     m4w = "raise:" + case.m4 if m4 is None else "r:" + pd_word(*m4)
+    if transport in VERIFY_ONLY:
+        return " ".join(["verify", "airplay", hx(w.a_ltpk), hx(w.client_ltsk), hx(w.a_id), hx(w.client_id),
+                         hx(cx), hx(cr.x_pub(cx)), pdw, m4w])
     return " ".join(["connect", transport, hx(w.a_ltpk), hx(w.client_ltsk), hx(w.a_id), hx(w.client_id),
-                     hx(w.client_x), hx(cr.x_pub(w.client_x)), pdw, m4w])
+                     hx(cx), hx(cr.x_pub(cx)), pdw, m4w])
 
 
 def impl_line(case):
@@ -1684,6 +1856,9 @@ def run_symbolic(ctx, only=None):
         for t in TRANSPORTS:
             for v in variants + M4_VARIANTS[t] + [dict(a, **m) for a in ACCEPTABLE[1:3] for m in M4_VARIANTS[t]]:
                 todo.append((t, v, w, None))
+        for t in VERIFY_ONLY:
+            for v in variants:
+                todo.append((t, v, w, None))
         todo += pair_entries(rng.fork("pairs"), sym)
     cases = []
     with Bench("sym") as bench:
@@ -1704,7 +1879,8 @@ def run_symbolic(ctx, only=None):
             ctx.disagree(describe("sym", t, v, case.w, hist), impl, ans,
                          where="pair-verify decision, exception class, installed keys and sequence of checks")
         ctx.validated()
-        check_consistency(ctx, case, t, "sym", v, hist)
+        if t not in VERIFY_ONLY:
+            check_consistency(ctx, case, t, "sym", v, hist)
 
 
 def run_real(ctx, only=None):
@@ -1719,6 +1895,16 @@ def run_real(ctx, only=None):
         for t in TRANSPORTS:
             for v in ACCEPTABLE + forged + M4_VARIANTS[t]:
                 todo.append((t, v, w, None))
+        sample = []
+        srng = rng.fork("verify-only")
+        for field, bits in FIELD_BITS.items():
+            for i in sorted(srng.sample(range(bits), ctx.scale(6, 40))):
+                sample += field_variants(field, {"flip": i})
+            for n in sorted(srng.sample(range(bits // 8), ctx.scale(4, 16))):
+                sample += field_variants(field, {"trunc": n})
+        for t in VERIFY_ONLY:
+            for v in ACCEPTABLE + STRUCTURAL + REAL_ONLY + sample:
+                todo.append((t, v, w, None))
         todo += pair_entries(rng.fork("pairs"), real)
     with Bench("real") as bench:
         sessions = Sessions(bench)
@@ -1726,7 +1912,9 @@ def run_real(ctx, only=None):
             case = sessions.attempt(t, v, world, hist)
             obs = case.obs
             kind, pd = case.sent_pd if case.sent_pd else ("absent", b"")
-            ref = reference_accepts(world, kind, pd)
+            ref = reference_accepts(world, kind, pd, getattr(case, "client_priv", None))
+            if v.get("replay_prev") and getattr(world, "prev_pd", None) is not None:
+                ref = False  # the very bytes of an earlier session: never an honest reply (fresh ephemerals)
             obs.reference = ref
             desc = describe("real", t, v, world, hist)
             what = "+".join(sorted(k + ("." + next(iter(x)) if isinstance(x, dict) else "=" + str(x)) for k, x in v.items())) or "genuine"
@@ -1741,6 +1929,19 @@ def run_real(ctx, only=None):
                 ctx.note("airplay-exc:" + "<-".join(obs.exc_chain))
             ctx.case(["real", t, canon_variant(v), hist_tag(hist)], not ref,
                      sample={"mode": "real", "transport": t, "variant": v, "observed": obs.summary()} if not ref else None)
+            if t in VERIFY_ONLY:
+                # a caller that treats verify_credentials() returning as the verdict and derives no keys
+                proceeded = [x for x in obs.other_traffic if x.startswith("TRUSTED:")]
+                if not ref and (obs.exc is None or proceeded):
+                    ctx.fail(f"{t}:forged-reply-accepted:{what}", desc, obs.summary(),
+                             "the call raises and the receiver gets no further request",
+                             "pair-verify succeeded for a reply that does not prove the paired identity (no keys are derived on this path)")
+                elif ref and not v and (obs.exc is not None or not proceeded):
+                    ctx.disagree(desc, obs.summary(), "the honest reply is accepted and the caller goes on",
+                                 where="non-vacuity: honest reply rejected on a verify-only call site")
+                elif not ref:
+                    ctx.note("verify-only-exc:" + "<-".join(obs.exc_chain))
+                continue
             check_consistency(ctx, case, t, "real", v, hist)
             m4_fails = case.m4 != "ok"
             if m4_fails:
@@ -1823,7 +2024,9 @@ def run_user(ctx, only=None):
                 continue
             fc = u.cases[forged]
             kind, pd = fc.sent_pd if fc.sent_pd else ("absent", b"")
-            ref = reference_accepts(world, kind, pd) if fc.sent_pd else None
+            ref = reference_accepts(world, kind, pd, getattr(fc, "client_priv", None)) if fc.sent_pd else None
+            if ref and v.get("replay_prev") and getattr(world, "prev_pd", None) is not None:
+                ref = False
             what = "+".join(sorted(k + ("." + next(iter(x)) if isinstance(x, dict) else "=" + str(x)) for k, x in v.items())) or "genuine"
             ctx.case(["user", config, forged, canon_variant(v)], ref is False,
                      sample={"mode": "user", "config": config, "forged": forged, "variant": v, "observed": u.summary()})
@@ -1850,10 +2053,73 @@ def run_user(ctx, only=None):
                 ctx.note("user-airplay-exc:" + "<-".join(u.exc_chain))
 
 
+RECONNECT_KINDS = ["companion-api", "ap2session", "pyatv.connect:mrp", "pyatv.connect:companion"]
+RECONNECT_SECOND = [{"replay_prev": True}, {}, {"signer": "B"}, {"sigmsg": "stale_own"}, {"sig_mut": {"flip": 77}},
+                    {"ident": "B"}, {"enc_mut": {"flip": 9}}]
+
+
+def run_reconnect(ctx, only=None):
+    """Second use of the same user-level object: connect (honest accessory), disconnect, connect again on
+    ONE CompanionAPI / ONE AP2Session / the same configuration through pyatv.connect(), the second
+    session answered with the first session's bytes replayed, the honest reply, or a forged one.  The
+    client must use fresh session keys, so the replay ("replay of a reply from another session") and
+    every forged reply must make the second connect fail, with no keys; the honest one must connect."""
+    rng = ctx.rng.fork("reconnect")
+    real = RealCrypto()
+    if only is not None:
+        todo = only
+    else:
+        todo = []
+        n = 0
+        for kind in RECONNECT_KINDS:
+            for v2 in RECONNECT_SECOND:
+                n += 1
+                todo.append((kind, v2, World(rng.fork("world", n), real)))
+    with Bench("real") as bench:
+        for kind, v2, world in todo:
+            world.prev_pd = None
+            desc = {"mode": "reconnect", "kind": kind, "variant": v2, "world": world.to_json()}
+            u1, u2 = bench.attempt_reconnect(world, kind, v2)
+            forged = u2.forged
+            fc = u2.cases[forged]
+            what = "+".join(sorted(k + ("." + next(iter(x)) if isinstance(x, dict) else "=" + str(x)) for k, x in v2.items())) or "genuine"
+            ctx.note(f"reconnect:{kind}:{what}:" + ("connected" if u2.exc is None else u2.exc))
+            observed = {"first": u1.summary(), "second": u2.summary()}
+            first_ok = u1.exc is None and u1.cases[forged].obs.enabled
+            if not first_ok or fc.sent_pd is None:
+                ctx.case(["reconnect", kind, canon_variant(v2)], False)
+                ctx.disagree(desc, observed, "first session (honest accessory) connects and the second reaches pair-verify",
+                             where="reconnect campaign: scenario did not get to the second pair-verify")
+                continue
+            kind_pd, pd = fc.sent_pd
+            ref = reference_accepts(world, kind_pd, pd, getattr(fc, "client_priv", None))
+            if v2.get("replay_prev"):
+                ref = False
+            ctx.case(["reconnect", kind, canon_variant(v2)], not ref,
+                     sample={"mode": "reconnect", "kind": kind, "variant": v2, "observed": u2.summary()})
+            keys = fc.obs.enabled or u2.keys_snapshot.get(forged)
+            if not ref:
+                if u2.exc is None:
+                    ctx.fail(f"reconnect:{kind}:second-connect-succeeded-after-forged-reply:{what}", desc, observed,
+                             "the second connect raises, no keys installed",
+                             "a replayed/forged reply was accepted on the second connection of the same object")
+                elif keys:
+                    ctx.fail(f"reconnect:{kind}:keys-installed-after-forged-reply:{what}", desc, observed,
+                             "no encryption keys after a rejected reply",
+                             "keys were installed on the second connection although the reply was replayed/forged")
+                elif forged != "airplay" and u2.exc != "AuthenticationError":
+                    ctx.fail(f"reconnect:{kind}:rejected-with-{u2.exc}:{what}", desc, observed,
+                             "AuthenticationError", f"second connect failed with {u2.exc} instead of an authentication error")
+            elif not v2 and (u2.exc is not None or not fc.obs.enabled):
+                ctx.disagree(desc, observed, "the honest accessory is accepted again on the second connection",
+                             where="non-vacuity of the reconnect campaign: honest second session rejected")
+
+
 def run(ctx):
     run_symbolic(ctx)
     run_real(ctx)
     run_user(ctx)
+    run_reconnect(ctx)
 
 
 def widen(ctx):
@@ -1864,6 +2130,9 @@ def replay(ctx, failure):
     case = failure["case"]
     mode = case["mode"]
     c2 = type(ctx)(ctx.prop, ctx.tier, ctx.seed, ctx.driver.driver_rel)
+    if mode == "reconnect":
+        run_reconnect(c2, only=[(case["kind"], case["variant"], World.from_json(case["world"], RealCrypto()))])
+        return bool(c2.failures)
     if mode == "user":
         run_user(c2, only=[(case["config"], case["forged"], case["variant"], World.from_json(case["world"], RealCrypto()))])
         return bool(c2.failures)
